@@ -452,7 +452,7 @@ def run(ctx):
     return ctx.finish(
         level="other",
         extra_cov={"exhaustive": ctx.tier == "thorough", "explanation": "theorems are about the spec model CM (escape safety, tag balance of its renderer, fragment membership); that PyMarkdown refines CM is decided by comparing rendered HTML on enumerated documents of the fragment F"},
-        rule="all documents of <= 3 lines over a 23-template leaf vocabulary and over a 16-template container vocabulary, 4-line container documents, 2-line documents over an extended container vocabulary, lists nested to depth three (3-5 items, tight / loose at every level, bullet and ordered), restricted to the fragment F (no tabs, no inline markup characters); the link-destination kernel on all strings of <= 4 (quick 3) characters over a 12-character alphabet + 5-character strings over 5, and link/image/definition documents built from them; the label kernel on all strings of <= 4 (quick 3) characters over letters of both cases and the six white-space characters, 300 / 3000 definition scripts, 200 / 729 documents with competing definitions; the thematic-break kernel on all lines of <= 4 (+ 1500 of 5) / 6 characters over {-, *, _, space, tab, a} and those lines as documents; the ATX kernel on all lines of <= 5 / 7 characters over {#, space, tab, a}; quick = seed-selected subsets; non-trivial = a document of 3+ lines; distinct by document",
+        rule="all documents of <= 3 lines over a 23-template leaf vocabulary and over a 16-template container vocabulary, 4-line container documents, 2-line documents over an extended container vocabulary, lists nested to depth three (3-5 items, tight / loose at every level, bullet and ordered), restricted to the fragment F (a tab only between letters or digits, no link / HTML / escape characters); the link-destination kernel on all strings of <= 4 (quick 3) characters over a 12-character alphabet + 5-character strings over 5, and link/image/definition documents built from them; the label kernel on all strings of <= 4 (quick 3) characters over letters of both cases and the six white-space characters, 300 / 3000 definition scripts, 200 / 729 documents with competing definitions; the thematic-break kernel on all lines of <= 4 (+ 1500 of 5) / 6 characters over {-, *, _, space, tab, a} and those lines as documents; the ATX kernel on all lines of <= 5 / 7 characters over {#, space, tab, a}; quick = seed-selected subsets; non-trivial = a document of 3+ lines; distinct by document",
         assumptions=["outside F (links apart from their destination, HTML blocks, backslash escapes, named references, tabs) nothing is claimed",
                      "documents that do not parse are C01's business"],
     )
